@@ -2,17 +2,31 @@ use crate::rt::Ctx;
 
 pub mod acct;
 pub mod c02;
+pub mod c03;
+pub mod c03_shell;
+pub mod c04;
 pub mod c05;
 pub mod c06;
 pub mod c06_shell;
+pub mod c12;
+pub mod c13;
 pub mod c15;
+pub mod decide;
+pub mod c16;
+pub mod c17;
 
 /// Runs the check for `ctx.id`; returns the evidence level, or None for an unknown id.
 pub fn run(ctx: &Ctx) -> Option<&'static str> {
     match ctx.id.as_str() {
         "C02" => Some(c02::run(ctx)),
+        "C03" => Some(c03::run(ctx)),
+        "C04" => Some(c04::run(ctx)),
+        "C12" => Some(c12::run(ctx)),
         "C05" => Some(c05::run(ctx)),
         "C06" => Some(c06::run(ctx)),
+        "C17" => Some(c17::run(ctx)),
+        "C16" => Some(c16::run(ctx)),
+        "C13" => Some(c13::run(ctx)),
         "C15" => Some(c15::run(ctx)),
         _ => None,
     }
